@@ -167,10 +167,29 @@ static void body_immediate(int kind, int dest) {
   ARBITRARY_ACTIVE(f);
   VREACH("arbitrary activated configuration");
   Snapshot old; snap(f, old);
-  g_expect_guards = true;
+  g_expect_guards = true; g_watch_pending = true;
   call_immediate(f, kind, dest);
-  g_expect_guards = false;
+  g_expect_guards = false; g_watch_pending = false;
   post_invariant(f);
+  if (g_pend_seen && !g_round_cancelled && kind != 6) {
+    // C13: inside the guards of the single pending request, the pending queries name exactly the states the request then enters / exits
+    VREACH("guards consulted the pending queries of an approved single request");
+    VASSERT(C13, g_pend_stable, "every guard of the round gets the same answers from the pending queries");
+    for (int s = 0; s < VM_NS; ++s) if (VM_HAS_STUB(s)) {
+      VASSERT(C13, (g_pend_enter[s] != 0) == (g_enter_count[s] > 0), "isPendingEnter holds exactly for the states the request is about to enter");
+      const bool entered = g_enter_count[s] > 0, exited = g_exit_count[s] > 0;
+      const bool nothing_requested_above = g_pend_req[s] == INVALID_PRONG;           // delimiter of the listed findings KF-C13-pending-none*
+      int br = s; { int a = VM_SPEC[s].parent; while (a >= 0 && VM_SPEC[a].kind != K_COMPO) { br = a; a = VM_SPEC[a].parent; } }
+      const bool third_prong = !nothing_requested_above && g_pend_req[s] != g_pend_act[s] && VM_SPEC[br].prong != g_pend_req[s] && VM_SPEC[br].prong != g_pend_act[s];   // delimiter of KF-C13-change-not-enter-or-exit
+      VASSERT(C13, !exited || g_pend_exit[s], "isPendingExit holds for every state the request is about to exit");
+      VASSERT(C13, !(g_pend_exit[s] && !exited && !nothing_requested_above), "isPendingExit holds for no state that stays (regions with a pending request)");
+      VASSERT(C13, !(g_pend_exit[s] && !exited && nothing_requested_above), "isPendingExit holds for no state that stays (below a region where nothing is requested)");
+      VASSERT(C13, !(entered || exited) || g_pend_change[s], "isPendingChange holds for every state the request is about to enter or exit");
+      VASSERT(C13, !(g_pend_change[s] && !entered && !exited && !nothing_requested_above && !third_prong), "isPendingChange holds for no state that is neither entered nor exited (regions with a pending request, state on the old or new branch)");
+      VASSERT(C13, !(g_pend_change[s] && !entered && !exited && nothing_requested_above), "isPendingChange holds for no state that is neither entered nor exited (below a region where nothing is requested)");
+      VASSERT(C13, !(g_pend_change[s] && !entered && !exited && third_prong), "isPendingChange holds for no state that is neither entered nor exited (state on a third branch of a region that switches)");
+    }
+  }
   if (g_round_cancelled) {
     VASSERT(C04, same_config(f, old), "a vetoed round leaves active and resumable sub-states as they were");
     VASSERT(C04, no_lifecycle(), "a vetoed round runs no lifecycle callback");
